@@ -86,6 +86,16 @@ Theorem C10_replace_count_refuted_no_alias :
 Proof. exact replace_count_refuted_no_alias. Qed.
 Print Assumptions C10_replace_count_refuted_no_alias.
 
+(* PARTIAL: the table-edit theorems above need [block_wf] — every sub-block has at least one table
+   slot.  REFUTED outside it (known finding C10-sparse-zero): on a client-made block with
+   uninitialised sub-blocks (NumSBLabels = 0, voxels 0 without a slot) ReplaceLabel(0, 7) changes
+   nothing and reports 0 although 3584 voxels carry label 0. *)
+Theorem C10_sparse_zero_refuted :
+  exists a, decode c10_sparse_block = Ok a /\ count_eq a 0 = 3584 /\
+  exists b', replace_label true c10_sparse_block 0 7 = Ok (b', 0) /\ decode b' = Ok a.
+Proof. exact replace_zero_sparse_refuted. Qed.
+Print Assumptions C10_sparse_zero_refuted.
+
 (* Split (= splitSlow), SplitSupervoxel, SplitSupervoxels on ANY block that decodes: the result
    decodes to the array edited under the run lengths (sequentially, by linear index as the Go loop
    does), for every table the re-encoding may pick; sizes are the edit's own counts. *)
